@@ -339,13 +339,11 @@ pub fn end_execution() -> EndReport {
             }
             if b.live {
                 rep.leaked.push((b.size, b.align));
-                // Returned to the system as well (a leak in every execution of a long exploration
-                // would otherwise exhaust memory); the header is marked freed so that a stray later
-                // free of this block is still recognised as a double free in most cases.
-                let mut h = core::ptr::read_unaligned(p.sub(HDR) as *const Header);
-                h.magic = MAGIC_FREED;
-                core::ptr::write_unaligned(p.sub(HDR) as *mut Header, h);
-                System.dealloc(b.base as *mut u8, Layout::from_size_align_unchecked(b.total, b.balign));
+                // Intentionally NOT returned to the system: the block may still be owned by a live
+                // object (a diagnostic string built inside the window on a violation path, or a
+                // handle the crate really leaked) and is released by its owner later, if ever.
+                // Engines stop exploring after a bounded number of violations, so leaks on a
+                // broken crate cannot exhaust memory.
             } else {
                 for k in 0..b.size {
                     if *p.add(k) != FILL_FREED {
